@@ -34,7 +34,7 @@ EXPECTED_PROBES = ['abandon_at_connected', 'abandon_at_poll',
                    'abandon_in_persist', 'abandon_at_ready',
                    'abandon_while_other_thread_sends',
                    'reconnected_before_release', 'abandon_at_failed_attempt',
-                   'long_url']
+                   'long_url', 'descriptor_zero']
 
 MECH = ['break', 'raise', 'close', 'with']
 SLOTS = 4 * 120
@@ -74,6 +74,7 @@ def plan(tier):
     nb = len(C09.bases())
     return [('sweep', nb * SLOTS),
             ('sweep_long_url', nb * SLOTS),
+            ('sweep_fd0', nb * SLOTS),
             ('early_faults', nb * len(EARLY) * 6 * 4),
             ('rebind', nb * (SLOTS // 4)),
             ('seeded', 2000 if tier == 'quick' else 100000),
@@ -175,6 +176,12 @@ def make_case(family, i, rng, tier):
         if c is not None:
             c['long_url'] = 120 + (i % 3) * 60
         return c
+    if family == 'sweep_fd0':
+        # a process without stdin: the first socket gets descriptor 0
+        c = make_case('sweep', i, rng, tier)
+        if c is not None:
+            c['fd0'] = True
+        return c
     if family == 'early_faults':
         m = i % 4
         i //= 4
@@ -222,6 +229,8 @@ def build(case):
     if early and 'app' in early:
         app.insert(0, {'when': {'name': early['app'].split('_at_')[1]},
                        'do': [{'op': 'close'}]})
+    if case.get('fd0'):
+        sc['fd_base'] = 0
     if case.get('long_url'):
         # (a long but legal URL: a token in the query string)
         sc['url'] += ('&' if '?' in sc['url'] else '?') + 'token=' + \
@@ -305,9 +314,12 @@ def execute(case):
         res.stats['probe:abandon_at_failed_attempt'] += 1
     if case.get('long_url'):
         res.stats['probe:long_url'] += 1
+    if case.get('fd0'):
+        res.stats['probe:descriptor_zero'] += 1
     res.nontrivial = bool(w.socks)
     res.sig = '%s|%d|%s|%r|%r|%r' % (base, idx, how, case.get('faults'),
-                                     case.get('early'), case.get('long_url'))
+                                     case.get('early'),
+                                     (case.get('long_url'), case.get('fd0')))
     res.sample = {'base': base, 'abandon_at': idx, 'event': evname,
                   'how': how, 'faults': case.get('faults'),
                   'release': rel, 'events': names[-6:]}
